@@ -53,8 +53,11 @@ func validJournal(file string) (bool, error) {
 		return false, nil
 	}
 
-	if jh.SectorSize < 512 || jh.SectorSize > 1<<16 {
-		// sanity check
+	if jh.SectorSize < 32 || jh.SectorSize > 1<<16 || jh.SectorSize&(jh.SectorSize-1) != 0 {
+		// The sanity check SQLite does. It takes the sector size from the
+		// journal when it rolls back, and writers on a file system
+		// layer which reports small sectors write journals with sectors
+		// as small as 32 bytes.
 		return false, nil
 	}
 
